@@ -153,6 +153,7 @@ func (w *vfWorld) newConn(ifi string) *vfConn {
 }
 
 func vfSrcName(a netip.Addr) string {
+	a = a.WithZone("")
 	if a.IsUnspecified() {
 		return "unspec"
 	}
